@@ -227,7 +227,31 @@ func C13(r *vf.Run) {
 			nAttach = 150 + g.Intn(200)
 			cells["attach-count:many"]++
 		}
+		type busState struct {
+			b      *bus.Bus
+			shadow map[uint32]int
+		}
+		var forks []busState
 		for ai := 0; ai < nAttach && !r.TooMany(); ai++ {
+			// a Bus is a value (emulator.System embeds one): a copy made at any point is a bus of its own,
+			// and what is attached to one afterwards is not the other's business
+			if ai > 0 && g.Intn(14) == 0 && len(forks) < 3 {
+				nb := new(bus.Bus)
+				*nb = *b
+				ns := make(map[uint32]int, len(shadow))
+				for k, v := range shadow {
+					ns[k] = v
+				}
+				forks = append(forks, busState{b, shadow})
+				b, shadow = nb, ns
+				hist = append(hist, "bus copied by value; history continues on the copy")
+				cells["bus:copied-by-value"]++
+			} else if len(forks) > 0 && g.Intn(5) == 0 {
+				i := g.Intn(len(forks))
+				forks[i], b, shadow = busState{b, shadow}, forks[i].b, forks[i].shadow
+				hist = append(hist, "history continues on another of the copies")
+				cells["bus:switched-between-copies"]++
+			}
 			// choose a range
 			var sb, eb uint32
 			shape := "fresh"
